@@ -76,8 +76,20 @@ type MW struct {
 func mx(addr string) string { return "Mx" + strings.ToLower(strings.TrimPrefix(addr, "0x")) }
 
 // New builds the hub, the Minter model whose multisig is owned by the hub's first signer set, and the connectors.
-func New(cfg world.Cfg, out io.Writer) (*MW, error) {
-	w := world.New(cfg)
+func New(cfg world.Cfg, out io.Writer) (*MW, error) { return NewWith(cfg, "", out) }
+
+// NewWith additionally backs the chain evmChain (if not empty) with the real Hub2 contract on a simulated EVM: the
+// whole bridge (Minter multisig and connectors on one side, the contract on the other, the hub in between) on real code.
+func NewWith(cfg world.Cfg, evmChain string, out io.Writer) (*MW, error) {
+	var w *world.World
+	if evmChain != "" {
+		var err error
+		if w, err = world.NewWithEvm(cfg, evmChain); err != nil {
+			return nil, err
+		}
+	} else {
+		w = world.New(cfg)
+	}
 	mw := &MW{W: w, Conns: map[string]*Conn{}}
 	mw.enc = json.NewEncoder(out)
 	mw.enc.SetEscapeHTML(false)
